@@ -297,4 +297,29 @@ example : (105714285 : Nat) ≤ 285714286 :=
 example : liquidationFee 64 (10 ^ 9) 0 5 (10 ^ 12) 0 = some ⟨0, 0, 0⟩ ∧
     liquidationFee 64 (10 ^ 9) 2000000 370000000 (10 ^ 12) 0 = none := by decide
 
+/-! ### exact failure condition (audit follow-up, design.d/AUDIT.md C02) -/
+
+/-- **exact failure condition of `apply_fees`**: it fails precisely when the fee cannot be computed, the
+receiver share cannot be computed, the receiver share exceeds the fee, or the fee exceeds the amount -/
+theorem applyFees_none_iff (W U : Nat) (p : FeeParams) (bc : BalanceChange) (a : Nat) :
+    applyFees W U p bc a = none ↔
+      feeOf W U p bc a = none ∨
+      ∃ fee, feeOf W U p bc a = some fee ∧
+        (receiverFee W U p fee = none ∨ ∃ r, receiverFee W U p fee = some r ∧ (fee < r ∨ a < fee)) := by
+  unfold applyFees checkedSub
+  cases hf : feeOf W U p bc a with
+  | none => simp
+  | some fee =>
+    cases hr : receiverFee W U p fee with
+    | none => simp [hr]
+    | some r =>
+      simp only [hr, reduceCtorEq, false_or, Option.some.injEq, exists_eq_left', exists_eq_left]
+      by_cases h1 : r ≤ fee
+      · by_cases h2 : fee ≤ a
+        · simp [h1, h2] <;> omega
+        · simp [h1, h2] <;> omega
+      · simp [h1] <;> omega
+
+example : applyFees 64 (10 ^ 9) ⟨5 * 10 ^ 7, 5 * 10 ^ 7, 37 * 10 ^ 7, 0⟩ .improved 1000 = some (950, ⟨32, 18⟩) := by decide
+
 end Gmx.C02
